@@ -9,7 +9,7 @@ THEOREMS = [
     "C16_never_overpay", "C16_register_gate", "C16_init_gate", "C16_status_truth",
     "C16_terminal_stable", "C16_inflight_query_agrees", "C16_refinement_partial",
     "C16_backends_differ_refuted", "C16_overpay_beyond_uint64_refuted",
-    "C16_lin_checker_sound", "C16_linearised_never_overpay",
+    "C16_lin_checker_sound", "C16_linearised_never_overpay", "C16_shard_admission",
 ]
 MODULE = "LV.Payments.Props"
 TARGETS = ["theories/Payments/Props.vo", "theories/Payments/Exec.vo",
@@ -183,6 +183,151 @@ def predicate(c, be):
     return fails
 
 
+# ------------------------------------------------ stored attempts (route content)
+# The harness registers attempts whose routes carry every field the stores persist
+# (verif_store_test.go vShape) and projects every attempt a store hands back
+# (`rt`: attempt id -> route / session key / hash projection).  The admission decision
+# (verifyAttempt, SentAmt) is a function of the STORED in-flight attempts, so "admits a
+# new attempt only while ... stay within the payment amount" and "both backends answer
+# alike" are about what was registered only if the stores hand back what they were given.
+
+MUTATING = ("init", "reg", "settle", "failatt", "fail", "delfailed", "delpay")
+
+
+def nosk(p):
+    """Projection without the session keys (drawn fresh per backend)."""
+    if not p or "rt" not in p:
+        return p
+    q = dict(p)
+    q["rt"] = {k: {kk: vv for kk, vv in v.items() if kk != "sk"} for k, v in p["rt"].items()}
+    return q
+
+
+def nosk_l(l):
+    return [[x[0], nosk(x[1])] for x in l]
+
+
+def route_diff(exp, got):
+    """First differing field of two attempt projections: (path, expected, got)."""
+    for k in sorted(set(exp) | set(got)):
+        if k == "hops":
+            continue
+        if exp.get(k) != got.get(k):
+            return k, exp.get(k), got.get(k)
+    he, hg = exp.get("hops", []), got.get("hops", [])
+    if len(he) != len(hg):
+        return "hops(len)", len(he), len(hg)
+    for i, (a, b) in enumerate(zip(he, hg)):
+        for k in sorted(set(a) | set(b)):
+            if a.get(k) != b.get(k):
+                role = "final" if i == len(he) - 1 else "hop"
+                return "%s.%s" % (role, k), a.get(k), b.get(k)
+    return None
+
+
+FIELD_NAMES = {"tot": "blinded total_amt_msat", "bp": "blinding point", "ed": "encrypted data",
+               "mpp": "MPP record", "amp": "AMP record", "md": "metadata", "cr": "custom records",
+               "amt": "amt_to_forward", "tl": "outgoing time lock", "ch": "channel id",
+               "pk": "hop pubkey", "lg": "legacy-payload flag", "fha": "first-hop amount",
+               "fhcr": "first-hop wire custom records", "src": "source key",
+               "ttl": "total time lock", "tamt": "total amount", "sk": "session key",
+               "hash": "attempt hash", "hops(len)": "number of hops"}
+
+
+def field_name(path):
+    role, _, k = path.rpartition(".")
+    return ((role + " ") if role else "") + FIELD_NAMES.get(k, k)
+
+
+def readback_fails(c, be):
+    """Lossless persistence on ONE backend: every attempt a store hands back (in any
+    MPPayment any operation returns, FetchInFlightPayments and QueryPayments included)
+    equals the attempt that was registered under that (hash, id) on that backend.
+    Returns ([(message, step index, field path)], #attempt comparisons)."""
+    reg = {}
+    fails, n = [], 0
+
+    def look(hh, p, i, where):
+        nonlocal n
+        for aid, got in (p.get("rt") or {}).items():
+            exp = reg.get((hh, int(aid)))
+            if exp is None:
+                continue
+            n += 1
+            d = route_diff(exp, got)
+            if d:
+                fails.append(("attempt %s of payment %d handed back by %s: %s registered %s, "
+                              "stored %s" % (aid, hh, where, field_name(d[0]),
+                                             "absent/0" if d[1] is None else repr(d[1]),
+                                             "absent/0" if d[2] is None else repr(d[2])),
+                              i, d[0]))
+    for i, s in enumerate(c["steps"]):
+        o, r = s["op"], s[be]
+        if o[0] == "reg" and r["e"] == 0 and r.get("reg"):
+            reg[(o[1], o[2])] = r["reg"]
+        if r["p"] is not None:
+            look(o[1], r["p"], i, o[0])
+        for hh, p in r["l"]:
+            look(hh, p, i, o[0])
+    q = (c.get("query") or {}).get(be)
+    if q:
+        for hh, p in q["l"]:
+            look(hh, p, len(c["steps"]), "QueryPayments")
+    return fails, n
+
+
+def closing_fetches(c, be):
+    """h -> projection of the trailing `fetch h` answers (no mutating op after them)."""
+    fin = {}
+    for s in reversed(c["steps"]):
+        o = s["op"]
+        if o[0] in MUTATING:
+            break
+        if o[0] == "fetch" and o[1] not in fin:
+            fin[o[1]] = s[be]
+    return fin
+
+
+def query_fails(c, cross=True):
+    """QueryPayments (closing observation): per backend it lists exactly the payments
+    FetchPayment finds, with the same content; KV and SQL list the same (cross: only
+    asked of histories on which the backends agreed step by step)."""
+    q = c.get("query")
+    if not q:
+        return []
+    fails = []
+    for be in ("kv", "sql"):
+        if q[be]["e"] != 0:
+            fails.append("%s QueryPayments failed: %s" % (be, q[be].get("m")))
+            continue
+        got = {x[0]: x[1] for x in q[be]["l"]}
+        for h, r in closing_fetches(c, be).items():
+            if r["e"] == 0 and got.get(h) != r["p"]:
+                fails.append("%s QueryPayments reports payment %d as %r, FetchPayment as %r"
+                             % (be, h, got.get(h), r["p"]))
+            if r["e"] == 5 and h in got:
+                fails.append("%s QueryPayments lists payment %d, FetchPayment does not know it"
+                             % (be, h))
+    if cross and not fails and nosk_l(q["kv"]["l"]) != nosk_l(q["sql"]["l"]):
+        fails.append("QueryPayments: KV %r vs SQL %r" % (q["kv"]["l"], q["sql"]["l"]))
+    return fails
+
+
+def shape_key(o):
+    """Histogram key of a register op's route content."""
+    sh = o[9] if len(o) > 9 else None
+    if not sh:
+        return "plain-1hop" + ("-blinded-nobp" if o[7] else "")
+    k = "%dhop" % sh["n"]
+    if o[7]:
+        k += "-blinded%d" % sh.get("bl", 0)
+        if sh.get("bl", 0) == 1 and not sh.get("nobp"):
+            k += "(final=intro)"
+        if sh.get("nobp"):
+            k += "-nobp"
+    return k
+
+
 # (op, KV error, SQL error) triples that the model proves are the ONLY differences
 # on disciplined histories (C16_refinement_partial / err_class_pair): same
 # accept/reject decision and same stored state, different sentinel.
@@ -203,7 +348,7 @@ def kvsql_compare(c):
         a, b = s["kv"], s["sql"]
         o = s["op"]
         k = o[0]
-        same_payload = a["p"] == b["p"] and a["l"] == b["l"]
+        same_payload = nosk(a["p"]) == nosk(b["p"]) and nosk_l(a["l"]) == nosk_l(b["l"])
         agree = same_payload and a["e"] == b["e"]
         if not agree and same_payload and a["p"] is None and (k, a["e"], b["e"]) in ERRCLASS:
             errclass.add("%s:%s/%s" % (k, ERR[a["e"]], ERR[b["e"]]))
@@ -230,8 +375,15 @@ def kvsql_compare(c):
             return ("cross-payment-resolve", i, "Settle/FailAttempt through another payment's "
                     "hash: KVStore rejects, SQLStore resolves the other payment's attempt"), \
                 errclass
+        if a["e"] == b["e"] and a["p"] and b["p"] and a["p"]["at"] == b["p"]["at"]:
+            for aid in sorted(a["p"].get("rt", {})):
+                d = route_diff(nosk(a["p"])["rt"][aid], nosk(b["p"])["rt"].get(aid, {}))
+                if d:
+                    return ("stored-attempt", i, "%s returns attempt %s with %s: KV %r vs SQL %r"
+                            % (k, aid, field_name(d[0]), d[1], d[2])), errclass
+        strip = lambda p: None if p is None else {x: y for x, y in p.items() if x != "rt"}
         return ("other", i, "%s: KV %s %s vs SQL %s %s" % (
-            k, ERR[a["e"]], a["p"], ERR[b["e"]], b["p"])), errclass
+            k, ERR[a["e"]], strip(a["p"]), ERR[b["e"]], strip(b["p"]))), errclass
     return None, errclass
 
 
@@ -437,6 +589,23 @@ def conc_predicate(row, be):
             fulldel.setdefault(h, []).append(c)
         if ok and k in ("settle", "failatt") and disc:
             resolved.setdefault((h, o[2]), []).append(i)
+    # disciplined programs (attempt ids program-wide fresh): every attempt a store hands
+    # back equals the attempt registered under that id, whichever goroutine reads it
+    if disc:
+        regd = {(c["op"][1], c["op"][2]): c["r"]["reg"] for c in hist
+                if c["op"][0] == "reg" and c["r"]["e"] == 0 and c["r"].get("reg")}
+        for i, c in enumerate(hist):
+            o, r = c["op"], c["r"]
+            projs = ([(o[1], r["p"])] if r["p"] is not None else []) + \
+                [(x[0], x[1]) for x in r["l"]]
+            for hh, p in projs:
+                for aid, got in (p.get("rt") or {}).items():
+                    exp = regd.get((hh, int(aid)))
+                    d = route_diff(exp, got) if exp else None
+                    if d:
+                        fails.append(("stored_attempt", "attempt %s of payment %d handed back "
+                                      "by %s: %s registered %r, stored %r"
+                                      % (aid, hh, o[0], field_name(d[0]), d[1], d[2]), i))
     # at most one successful InitPayment per hash unless a Fail / full delete intervened
     for h, li in inits.items():
         en = enablers.get(h, [])
@@ -486,7 +655,9 @@ def conc_stage(ctx, crows, seq_rows, seq_terms):
                               {"backend": be, "concurrent_program": row["case"],
                                "mode": row["mode"], "first_failure": msg, "at_op": i,
                                "all": fl[:6], "history(g,op,inv,ret,answer)": row[be]},
-                              signature="C16 conc %s %s: %s" % (be, th, msg))
+                              signature="C16 conc %s %s: %s" % (
+                                  be, th, msg.split(": ", 1)[1].split(" registered")[0]
+                                  if th == "stored_attempt" else msg))
     cov["predicate_evaluations"] = pe
 
     # ---- linearisability (disciplined programs)
@@ -599,6 +770,13 @@ def conc_stage(ctx, crows, seq_rows, seq_terms):
                 for b in h[i + 1:]:
                     tot += 1
                     ovl += overlaps(a, b)
+    cshapes = {}
+    for row in crows:
+        for c in row["kv"]:
+            if c["op"][0] == "reg":
+                k = shape_key(c["op"])
+                cshapes[k] = cshapes.get(k, 0) + 1
+    cov["route_shapes(register ops, per backend)"] = cshapes
     for row, be, h, w in lin_jobs:
         # witness differs from the order of invocation: the search had to reorder
         byinv = sorted(range(len(h)), key=lambda i: h[i]["inv"])
@@ -658,6 +836,8 @@ def run(ctx):
                 ctx.note("replayed history: " + outs[0])
             ctx.cov.update({"evaluations": 1, "rule": "replay of one recorded history"})
             return
+    import time as _time
+    t_proof = _time.time() - ctx.t0
     env = {}
     if ctx.thorough:
         env["VERIF_CHUNK"] = "40"
@@ -673,13 +853,28 @@ def run(ctx):
                                  "^(TestVerifPayments|TestVerifPaymentsConc)$",
                                  env=env, tags="verif test_db_sqlite", timeout=2400,
                                  race=False)
+    t_harness = _time.time() - ctx.t0 - t_proof
     rows = read_jsonl(trace)
     crows = read_jsonl(ctrace)
+    ctx.cov["stage_wall_s"] = {"proof_stage": round(t_proof, 1), "go_harness": round(t_harness, 1)}
     if rc != 0 or not rows or not crows:
         ctx.violation("harness_failed", "TestVerifPayments/TestVerifPaymentsConc",
                       {"log": out[-4000:]}, signature="harness", failing_input=False)
         return
     crows.sort(key=lambda r: r["case"])
+    # probes: inputs outside the compared domain, recorded in the evidence, not judged
+    probes = [c for c in rows if c["mode"] == "probe"]
+    rows = [c for c in rows if c["mode"] != "probe"]
+    ctx.cov["probes(recorded, not judged)"] = {
+        c["probe"]: {be: {"register": ERR[c["steps"][1][be]["e"]],
+                          "message": c["steps"][1][be].get("m", "")[:120]}
+                     for be in ("kv", "sql")} for c in probes}
+    for c in probes:
+        if c["steps"][1]["kv"]["e"] != c["steps"][1]["sql"]["e"]:
+            ctx.note("probe %s: RegisterAttempt KV %s / SQL %s (%s) — backends differ outside "
+                     "the compared domain (notes/C16.md, candidate finding)"
+                     % (c["probe"], ERR[c["steps"][1]["kv"]["e"]],
+                        ERR[c["steps"][1]["sql"]["e"]], c["steps"][1]["sql"].get("m", "")[:80]))
 
     # ---- property predicate on the implementation's own answers
     nviol = 0
@@ -697,6 +892,40 @@ def run(ctx):
                                "history": [s["op"] for s in c["steps"][:i + 1]],
                                "answers": [s[be] for s in c["steps"][:i + 1]]},
                               signature="C16 %s %s: %s" % (be, th, msg))
+
+    # ---- stored attempts: what the stores hand back = what was registered
+    rb_cmp = rb_bad = q_cmp = q_bad = 0
+    flagged = set()        # cases with a concrete failing history already reported
+    for c in rows:
+        for be in ("kv", "sql"):
+            fl, n = readback_fails(c, be)
+            rb_cmp += n
+            if fl:
+                rb_bad += 1
+                flagged.add(c["case"])
+                if rb_bad <= 3:
+                    msg, i, path = fl[0]
+                    ctx.violation("impl_violates_predicate",
+                                  "C16 stored attempt = registered attempt (input of "
+                                  "C16_register_gate / C16_refinement_partial)",
+                                  {"backend": be, "case": c["case"], "mode": c["mode"],
+                                   "shape": c.get("shape"), "first_failure": msg, "at_step": i,
+                                   "history": [s["op"] for s in c["steps"][:i + 1]],
+                                   "registered": [s[be].get("reg") for s in c["steps"][:i + 1]
+                                                  if s["op"][0] == "reg" and s[be]["e"] == 0],
+                                   "all": [m for m, _, _ in fl[:4]]},
+                                  signature="C16 %s stored-attempt: %s lost or altered"
+                                            % (be, field_name(path)))
+        if c["mode"] != "wrap":
+            qf = query_fails(c, cross=kvsql_compare(c)[0] is None)
+            q_cmp += 1 if c.get("query") else 0
+            q_bad += bool(qf)
+            if qf and q_bad <= 2:
+                flagged.add(c["case"])
+                ctx.violation("impl_violates_predicate", "C16_status_truth (QueryPayments)",
+                              {"case": c["case"], "mode": c["mode"], "failures": qf[:3],
+                               "history": [s["op"] for s in c["steps"]]},
+                              signature="C16 query: " + qf[0].split(" reports")[0][:60])
 
     # ---- KV vs SQL, directly on the implementation
     div = {}
@@ -722,10 +951,12 @@ def run(ctx):
                 div[kind] = detail
             continue
         # anything else — or any divergence on a disciplined history — is new
+        flagged.add(c["case"])
         if nviol < 6:
             nviol += 1
             ctx.violation("impl_violates_predicate", "C16_refinement_partial", detail,
-                          signature="C16 kvsql-unexpected:%s %s" % (kind, desc))
+                          signature="C16 kvsql-unexpected:%s %s" % (
+                              kind, desc.split(": KV ")[0] if kind == "stored-attempt" else desc))
     for kind, detail in sorted(div.items()):
         ctx.violation("impl_violates_predicate", "C16_backends_differ_refuted", detail,
                       signature="C16 kvsql:%s" % kind)
@@ -773,7 +1004,7 @@ def run(ctx):
                        "implementation_answer": c["steps"][si][be],
                        "mismatch_indices(2*step+backend)": idx[:10]},
                       signature="C16 model mismatch %s %s" % (be, c["steps"][si]["op"][0]),
-                      failing_input=bool(predicate(c, be)))
+                      failing_input=bool(predicate(c, be)) or c["case"] in flagged)
     if not pr["ok"] and not ctx.violations:
         ctx.violation("proof_broken", ", ".join(pr["broken"]) or "Payments build",
                       {"log": pr["log"][-4000:]}, signature="proof", failing_input=False)
@@ -794,7 +1025,26 @@ def run(ctx):
             if s["kv"]["p"]:
                 st = STATUS.get(s["kv"]["p"]["st"], "?")
                 stat[st] = stat.get(st, 0) + 1
+    shapes, nshape_ops = {}, 0
+    for c in rows:
+        for s in c["steps"]:
+            if s["op"][0] == "reg":
+                nshape_ops += 1
+                k = shape_key(s["op"]) + (":ok" if s["kv"]["e"] == 0 else ":refused")
+                shapes[k] = shapes.get(k, 0) + 1
+    optional = {}
+    for c in rows:
+        for s in c["steps"]:
+            if s["op"][0] == "reg" and len(s["op"]) > 9 and s["op"][9]:
+                for f in ("amp", "md", "cr", "fh", "fee", "tl", "nobp"):
+                    if s["op"][9].get(f):
+                        optional[f] = optional.get(f, 0) + 1
     ctx.cov.update({
+        "route_shapes(register ops)": shapes,
+        "route_optional_fields(register ops)": optional,
+        "shape_universe_cases": sum(1 for c in rows if c["mode"] == "shape"),
+        "stored_attempt_comparisons": rb_cmp, "stored_attempt_histories_bad": rb_bad,
+        "query_payments_comparisons": q_cmp,
         "evaluations": len(rows),
         "distinct_nontrivial": distinct_count(
             [c for c in rows if sum(1 for s in c["steps"] if s["op"][0] == "reg"
@@ -802,7 +1052,9 @@ def run(ctx):
             lambda c: [s["op"] for s in c["steps"]]),
         "rule": "seeded histories over 2-3 payment hashes; modes: disc (fresh attempt ids, "
                 "router-like targets), wild (ids from a pool of 5, arbitrary targets), wrap "
-                "(amounts near 2^63/2^64), witness (the Coq witnesses); non-trivial = at least "
+                "(amounts near 2^63/2^64), witness (the Coq witnesses), shape (enumerated route "
+                "shapes x one multi-shard history); every register op carries a route shape "
+                "(hops, blinded tail, optional records); non-trivial = at least "
                 "one accepted registration; distinct by full op list",
         "traces_validated_against_impl": 2 * len(rows),
         "predicate_evaluations": pred_evals,
